@@ -221,6 +221,14 @@ func (m *apiRunner) step(c *apiCall) apiStep {
 		})
 	}
 
+	if (c.M == "findOneAndDelete" || c.M == "findOneAndReplace" || c.M == "findOneAndUpdate") && strings.HasPrefix(reply, `{"ok"`) {
+		safely("target", func() {
+			if detail := modifyTarget(c, pre, post); detail != "" {
+				viol("C13", "a find-and-modify touched another document than the first match of filter → stable sort", "find-window:"+c.M, detail)
+			}
+		})
+	}
+
 	// C19
 	if c.M == "expire" && strings.HasPrefix(reply, `{"ok"`) {
 		safely("ttl", func() {
@@ -431,7 +439,7 @@ func batchOracle(pre *lungo.Catalog, c *apiCall) (string, bool) {
 func monTuples(doc bsonkit.Doc, key bson.D) [][]interface{} {
 	tuples := [][]interface{}{{}}
 	for _, e := range key {
-		v, _ := bsonkit.All(doc, e.Key, true, true)
+		v := ownValues(doc, e.Key)
 		vals := []interface{}{v}
 		if a, ok := v.(bson.A); ok && len(a) > 0 {
 			vals = a
@@ -453,7 +461,7 @@ func tuplesShare(a, b [][]interface{}) bool {
 		for _, y := range b {
 			eq := len(x) == len(y)
 			for i := 0; eq && i < len(x); i++ {
-				eq = bsonkit.Compare(x[i], y[i]) == 0
+				eq = keyEq(x[i], y[i])
 			}
 			if eq {
 				return true
@@ -850,36 +858,12 @@ func (m *apiRunner) findWindow(c *apiCall, cat *lungo.Catalog) string {
 		}
 		return "" // Transaction.Find answers before looking at sort and skip
 	}
-	list := ns.Documents.List
-	var sel bsonkit.List
-	for _, d := range list {
-		ok, err := mongokit.Match(d, &c.Q)
-		if err != nil {
-			return "" // the implementation may stop before the offending document
+	sel, verdict := sortedSelection(ns.Documents.List, c.Q, c.Sort, hasSort)
+	if verdict != "" {
+		if verdict == "no verdict" {
+			return ""
 		}
-		if ok {
-			sel = append(sel, d)
-		}
-	}
-	if hasSort && len(c.Sort) > 0 {
-		rev, ok := sortDirs(c.Sort)
-		if !ok {
-			return "Find accepted a malformed sort " + vj.Enc(c.Sort)
-		}
-		sort.SliceStable(sel, func(i, j int) bool {
-			for k, e := range c.Sort {
-				a := sortKeyOracle(bsonkit.Get(sel[i], e.Key), rev[k])
-				b := sortKeyOracle(bsonkit.Get(sel[j], e.Key), rev[k])
-				r := bsonkit.Compare(a, b)
-				if rev[k] {
-					r = -r
-				}
-				if r != 0 {
-					return r < 0
-				}
-			}
-			return false
-		})
+		return verdict
 	}
 	if c.HasSkip {
 		if c.Skip < 0 {
@@ -909,6 +893,84 @@ func (m *apiRunner) findWindow(c *apiCall, cat *lungo.Catalog) string {
 	}
 	if strings.Join(want, ",") != strings.Join(have, ",") {
 		return "want [" + strings.Join(want, ",") + "] got [" + strings.Join(have, ",") + "]"
+	}
+	return ""
+}
+
+// sortedSelection: the matching documents (real matcher) in stable sort order (own comparator: per
+// key the minimum / maximum element of an array, exact numeric order). verdict "no verdict": the
+// filter does not evaluate on some document.
+func sortedSelection(list bsonkit.List, q bson.D, sortDoc bson.D, hasSort bool) (sel bsonkit.List, verdict string) {
+	for _, d := range list {
+		ok, err := mongokit.Match(d, &q)
+		if err != nil {
+			return nil, "no verdict" // the implementation may stop before the offending document
+		}
+		if ok {
+			sel = append(sel, d)
+		}
+	}
+	if hasSort && len(sortDoc) > 0 {
+		rev, ok := sortDirs(sortDoc)
+		if !ok {
+			return nil, "a malformed sort was accepted: " + vj.Enc(sortDoc)
+		}
+		sort.SliceStable(sel, func(i, j int) bool {
+			for k, e := range sortDoc {
+				a := sortKeyOracle(bsonkit.Get(sel[i], e.Key), rev[k])
+				b := sortKeyOracle(bsonkit.Get(sel[j], e.Key), rev[k])
+				r := keyCmp(a, b)
+				if rev[k] {
+					r = -r
+				}
+				if r != 0 {
+					return r < 0
+				}
+			}
+			return false
+		})
+	}
+	return sel, ""
+}
+
+// modifyTarget checks which document a findOneAndDelete / findOneAndReplace / findOneAndUpdate
+// touched: the documents of the prior list that are gone from the new one (by identity) must be at
+// most the FIRST matching document in stable sort order.
+func modifyTarget(c *apiCall, pre, post *lungo.Catalog) string {
+	h := lungo.Handle{c.DB, c.Coll}
+	ns := pre.Namespaces[h]
+	if ns == nil {
+		return ""
+	}
+	sel, verdict := sortedSelection(ns.Documents.List, c.Q, c.Sort, c.HasSort)
+	if verdict != "" {
+		if verdict == "no verdict" {
+			return ""
+		}
+		return verdict
+	}
+	still := map[bsonkit.Doc]bool{}
+	if pn := post.Namespaces[h]; pn != nil {
+		for _, d := range pn.Documents.List {
+			still[d] = true
+		}
+	}
+	var gone bsonkit.List
+	for _, d := range ns.Documents.List {
+		if !still[d] {
+			gone = append(gone, d)
+		}
+	}
+	idOf := func(d bsonkit.Doc) string { return vj.Enc(bsonkit.Get(d, "_id")) }
+	switch {
+	case len(gone) > 1:
+		return fmt.Sprintf("%d documents were touched", len(gone))
+	case len(gone) == 1 && len(sel) == 0:
+		return "document " + idOf(gone[0]) + " was touched although nothing matches"
+	case len(gone) == 1 && gone[0] != sel[0]:
+		return "want " + idOf(sel[0]) + " (first of " + strconv.Itoa(len(sel)) + " in sort order) got " + idOf(gone[0])
+	case len(gone) == 0 && len(sel) > 0 && c.M == "findOneAndDelete":
+		return "the first matching document " + idOf(sel[0]) + " was not deleted"
 	}
 	return ""
 }
